@@ -370,6 +370,7 @@ SWEEP = ["concurrent/test_epoch.cpp"]
 # name anchors (validated by tools/rename_sweep.py; a vanished name is exit 2, see core.check_anchor_names)
 ANCHORS = {
     '_epoch': ['^babylon::Epoch::Accessor(<|$)'],
+    '_index': ['^babylon::Epoch::Accessor(<|$)'],
     '_version': ['^babylon::Epoch(<|$)'],
     'current_thread_id': ['^babylon::internal::ThreadIdImpl(<|$)'],
     'ensure': ['^babylon::ConcurrentVector(<|$)'],
